@@ -16,6 +16,7 @@ SRC_TIE = {
     "C03": "processing_loop (both engines)",
     "C04": "_activate and processing_loop (both engines), CallbacksExecutor.call/async_call",
     "C05": "_activate, _trigger and processing_loop of both engines (`async = sync with awaits`), the wrapper and executor methods of callbacks.py in their sync and async forms",
+    "C06": "processing_loop (both engines): the protocol's flags `fixed` (re-check after the release) and `atomic` (no suspension point between the last emptiness test and the release) are computed from the scripts (C06_script_flags)",
     "C08": "CallbackWrapper.call/__call__ (truth value compared with the expected value) and CallbacksExecutor.all/async_all (conjunction, left to right, first failing guard stops)",
     "C11": "_trigger (the __initial__ branch, the stale activation trigger) and _activate on the initial pseudo-transition",
     "C14": "_activate (result accumulation and the unwrap rule), CallbackWrapper.call/__call__ and CallbacksExecutor.call/async_call",
